@@ -4,11 +4,18 @@
 # the repository's own suite (unless SKIP_SUITE=1), then runs one property's check against the copy.
 set -u
 export GOFLAGS=-mod=mod GOPROXY=off GOSUMDB=off GOTOOLCHAIN=local
-patch=$(readlink -f "$1"); prop=$2; tier=${3:-quick}
+spec=$1; prop=$2; tier=${3:-quick}
 d=$(mktemp -d /tmp/sxmut-XXXXXX)
 trap 'rm -rf "$d"' EXIT
 rsync -a --exclude .git /repo/ "$d/repo/"
-( cd "$d/repo" && patch -p1 --no-backup-if-mismatch < "$patch" >/dev/null ) || { echo "MUTANT: patch does not apply"; exit 3; }
+case "$spec" in
+  sed:*) f=$(echo "$spec" | cut -d: -f2); e=$(echo "$spec" | cut -d: -f3-)
+     before=$(md5sum "$d/repo/$f"); sed -i -E "$e" "$d/repo/$f"; after=$(md5sum "$d/repo/$f")
+     [ "$before" = "$after" ] && { echo "MUTANT: sed changed nothing"; exit 3; }
+     diff -u "/repo/$f" "$d/repo/$f" | head -${MUT_DIFF_LINES:-12} ;;
+  *) patch=$(readlink -f "$spec")
+     ( cd "$d/repo" && patch -p1 --no-backup-if-mismatch < "$patch" >/dev/null ) || { echo "MUTANT: patch does not apply"; exit 3; } ;;
+esac
 if [ -z "${SKIP_SUITE:-}" ]; then
   ( cd "$d/repo" && go build ./... && go test -vet=off -count=1 ./... >"$d/suite.log" 2>&1 ) || { echo "MUTANT: suite fails with this patch"; tail -20 "$d/suite.log"; exit 4; }
   echo "MUTANT: builds and passes the repository suite"
